@@ -27,8 +27,14 @@ import (
 // cases draw from the forms it accepts, the failing start-ups from all the others.
 
 // layoutsAccepted: CR and LF are ignored by base64.StdEncoding.
+//
+// scheme-upper / scheme-capital / scheme-mixed: the scheme of the URI spelled DATA: / Data: / dAtA: - URI
+// schemes are case-insensitive (RFC 3986 3.1, RFC 2397), so such a value IS an inline value: it must load
+// and serve like its lower-case spelling and be redacted wherever that one is (F54: the tree used to take
+// it for a file name and os.ReadFile's error carried the whole value into the log).
 var layoutsAccepted = []string{"single", "wrap76-lf", "wrap64-lf", "wrap76-crlf", "wrap64-crlf",
-	"trailing-lf", "trailing-crlf", "wrap76-lf-trailing", "one-break", "leading-lf"}
+	"trailing-lf", "trailing-crlf", "wrap76-lf-trailing", "one-break", "leading-lf",
+	"scheme-upper", "scheme-capital", "scheme-mixed"}
 
 // layoutsRejected: forms the decoder refuses (or that are no base64 data: value at all). A form that
 // happens to decode for one payload (URL alphabet without '-' and '_', nothing to pad) simply serves.
@@ -36,12 +42,29 @@ var layoutsRejected = []string{"wrap76-tab", "tab-inside", "blank-inside", "wrap
 	"trailing-space", "trailing-tab", "urlsafe", "nopad", "pct-padding", "pct-line-breaks", "pct-all",
 	"vtab-inside", "del-inside", "bad-char", "truncated", "media-type", "semicolon-base64", "double-comma"}
 
-// layoutsUnrecognised: the whole value is not taken for an inline value (it does not begin with the
-// five bytes "data:"), so it is handled as a file name.
-var layoutsUnrecognised = []string{"value-leading-space", "value-leading-tab", "scheme-upper", "scheme-capital", "value-leading-lf"}
+// layoutsFileName: the whole value is NOT a data: URI (white space in front of the scheme, something else
+// in front of it, another scheme): by definition it is a file name, whatever its tail looks like. What the
+// tree prints about a file it cannot open (os.ReadFile's error names the file) is outside the property;
+// such start-ups are run and counted under a neutral label, not judged (see knownClass / specFail).
+var layoutsFileName = []string{"value-leading-space", "value-leading-tab", "value-leading-lf",
+	"prefix-dot-slash", "scheme-misspelt", "scheme-without-colon"}
 
-// unrecognisedClass: see knownClass.
-const unrecognisedClass = "inline-value-read-as-path-echoed"
+// fileNameLabel: see knownClass.
+const fileNameLabel = "value-is-a-file-name"
+
+func isFileNameLayout(layout string) bool {
+	for _, l := range layoutsFileName {
+		if l == layout {
+			return true
+		}
+	}
+	return false
+}
+
+// isDataURI: the value is an inline value - the scheme `data` in any spelling, followed by a colon.
+func isDataURI(v string) bool {
+	return len(v) >= 5 && strings.EqualFold(v[:5], "data:")
+}
 
 func wrap(s string, n int, sep string) string {
 	var b strings.Builder
@@ -141,8 +164,16 @@ func inlineValue(style, layout, p string) string {
 		return "DATA:" + strings.TrimPrefix(pre, "data:") + p
 	case "scheme-capital":
 		return "Data:" + strings.TrimPrefix(pre, "data:") + wrap(p, 64, "\n")
+	case "scheme-mixed":
+		return "dAtA:" + strings.TrimPrefix(pre, "data:") + wrap(p, 76, "\n") + "\n"
 	case "value-leading-lf":
 		return "\n" + pre + p
+	case "prefix-dot-slash":
+		return "./" + pre + p
+	case "scheme-misspelt":
+		return "dta:" + strings.TrimPrefix(pre, "data:") + p
+	case "scheme-without-colon":
+		return "data;" + strings.TrimPrefix(pre, "data:") + p
 	}
 	core.Fatalf("C19: unknown layout %q", layout)
 	return ""
@@ -152,7 +183,7 @@ func inlineValue(style, layout, p string) string {
 // "format" (a format other than base64 named before the comma), "ok", or "corrupt" with the offset the
 // standard decoder reports. It uses encoding/base64 only - nothing of the tree under verification.
 func inlineOutcome(raw string) (kind string, offset int) {
-	if !strings.HasPrefix(raw, "data:") {
+	if !isDataURI(raw) {
 		return "file", 0
 	}
 	v := strings.TrimPrefix(raw[5:], "//")
